@@ -114,6 +114,7 @@ type W struct {
 	allocLog  []string
 	countAllocs bool
 	corsBranch []byte
+	oracleHit  bool // an engine-only reachability oracle has just answered true
 	notes     []string
 	pathViol  bool
 	fnCount   map[*ssa.Function]int
